@@ -314,6 +314,9 @@ def run(cx):
         ob.require(ok, "tick/arm", "the connectivity check is not driven by the interval tick arm", lb.path)
         tk = [c for c in lb.calls_to("tokio::time::interval::Interval::tick")]
         ob.require(len(tk) == 1 and term_has_call(lo.of_operand(tk[0].args[0]), "tokio::time::interval::interval"), "tick/interval-used", "tick() not on the interval built above", lb.path)
+        check_ms_getter(ob, prog, "anemo::config::Config::connectivity_check_interval", "connectivity_check_interval_ms")
+        check_ms_getter(ob, prog, "anemo::config::Config::connection_backoff", "connection_backoff_ms")
+        check_ms_getter(ob, prog, "anemo::config::Config::max_connection_backoff", "max_connection_backoff_ms")
         gb = cx.body("anemo::config::Config::connectivity_check_interval")
         t = Origins(gb).of_local(0)
         ob.require(mentions_field(t, "connectivity_check_interval_ms"), "config/interval", f"connectivity_check_interval = {show(t)[:100]}", gb.path)
